@@ -272,7 +272,9 @@ fn run_ppcache_once(case: &Sx) -> Result<Sx, String> {
             } else {
                 std::env::set_var("SOURCE_DATE_EPOCH", OsStr::from_bytes(&date));
             }
-            for (ci, pc) in per.iter_mut().enumerate() {
+            // phase 1, for every configuration: the include recorder (process_preprocessed_file's part)
+            let mut recorded: Vec<Result<Option<(Vec<(String, PathBuf)>, Vec<Truth>)>, ()>> = vec![];
+            for ci in 0..per.len() {
                 let cfg = cfg_of(ci as u32);
                 let mut included: HashMap<PathBuf, String> = HashMap::new();
                 let mut disabled = false;
@@ -297,10 +299,10 @@ fn run_ppcache_once(case: &Sx) -> Result<Sx, String> {
                         }
                     }
                 }
-                let status = if disabled {
-                    "disabled"
+                recorded.push(if disabled {
+                    Err(())
                 } else if included.is_empty() {
-                    "empty"
+                    Ok(None)
                 } else {
                     // exactly what the direct-mode prelude of generate_hash_key does
                     let mut files: Vec<(String, PathBuf)> = included.into_iter().map(|(p, d)| (d, p)).collect();
@@ -313,13 +315,41 @@ fn run_ppcache_once(case: &Sx) -> Result<Sx, String> {
                             Truth { name, bytes: b.unwrap_or_default(), mtime: m }
                         })
                         .collect();
-                    if fresh {
-                        pc.entry = PreprocessorCacheEntry::new();
-                        pc.truth.clear();
+                    Ok(Some((files, truth)))
+                });
+            }
+            // the window between the recorder and add_result (the preprocessor output is hashed in between):
+            // somebody removes files
+            for v in step.arg(6).list() {
+                let p = w.path(v.bytes());
+                if let Ok(m) = std::fs::symlink_metadata(&p) {
+                    if m.is_dir() {
+                        let _ = std::fs::remove_dir_all(&p);
+                    } else {
+                        let _ = std::fs::remove_file(&p);
                     }
-                    pc.entry.add_result(start, &key, files);
-                    pc.truth.insert(key.as_bytes().to_vec(), (truth, date.clone()));
-                    "ok"
+                }
+            }
+            // phase 2: add_result
+            for (pc, rec) in per.iter_mut().zip(recorded) {
+                let status = match rec {
+                    Err(()) => "disabled",
+                    Ok(None) => "empty",
+                    Ok(Some((files, truth))) => {
+                        if fresh {
+                            pc.entry = PreprocessorCacheEntry::new();
+                            pc.truth.clear();
+                        }
+                        // the harness' own view: can every recorded file still be stat'ed?
+                        let gone = files.iter().any(|(_, p)| std::fs::symlink_metadata(p).is_err());
+                        pc.entry.add_result(start, &key, files);
+                        if gone {
+                            "unstored"
+                        } else {
+                            pc.truth.insert(key.as_bytes().to_vec(), (truth, date.clone()));
+                            "ok"
+                        }
+                    }
                 };
                 let (n, rs) = view(&pc.entry);
                 pc.out.push(Sx::L(vec![Sx::sym("r"), Sx::sym(status), n, rs]));
